@@ -226,8 +226,12 @@ class Stack:
 
     def send_pgn(self, dp, pf, ps, prio, sa, data, time_limit=0, ff=3):
         now = self.sim.now
+        buf = list(data)
         r = self.call(('send', now, dp, pf, ps, prio, sa, list(data), us(time_limit), ff),
-                      lambda: self.ecu.send_pgn(dp, pf, ps, prio, sa, list(data), time_limit, ff))
+                      lambda: self.ecu.send_pgn(dp, pf, ps, prio, sa, buf, time_limit, ff))
+        if getattr(self.sim, 'reuse_buffers', False):
+            # the application uses its list again as soon as send_pgn has returned: the message handed over is the one of the call
+            buf[:] = [x ^ 0x5A for x in buf]
         self.sim.trace.append((now, self.idx, 'send_pgn', dp, pf, ps, prio, sa, len(data), r if isinstance(r, bool) else repr(r), tuple(data)))
         return r
 
